@@ -64,10 +64,27 @@ static void harness_sched_point(void);
  * (op `multi`, RACE `uA:B`) */
 static mode_t harness_umask(mode_t m);
 #define umask(m) harness_umask(m)
+/* the receiver's ENVIRONMENT as a script (op `sink`, optional last token `blk=N,rdmax=M,eintr=K,short=K:M`): what
+ * fstat(2) reports as st_blksize of the file being written (file systems differ: 512, 4096, 9216, 65536, 1 MiB), how
+ * many bytes one read(2) delivers at most (the kernel may fragment any stream), and which read(2) call -- counted over
+ * all reads of the connection -- is interrupted (-1/EINTR, once) or short */
+#include <sys/stat.h>
+static int harness_fstat(int fd, struct stat *sb);
+#define fstat(fd, sb) harness_fstat(fd, sb)
+/* ... and which write(2) call of the receiver (file data and replies, one counter) is interrupted or short
+ * (`wr=K:e` / `wr=K:s`), which open(2) fails with EMFILE (`open=K`), whether fstat(2) fails with EIO (`fstat=fail`) */
+#include <fcntl.h>
+static ssize_t harness_write(int fd, const void *buf, size_t n);
+static int harness_open(const char *path, int flags, ...);
+#define write(fd, buf, n) harness_write(fd, buf, n)
+#define open(...) harness_open(__VA_ARGS__)
 #define fdopen(fd, mode) harness_fdopen(fd, mode)
 #define errf(stream, fmt, ap) (harness_sched_point(), (errf)(stream, fmt, ap))
 #include "src/pdsh/pcp_server.c"
 #undef read
+#undef fstat
+#undef write
+#undef open
 #undef fdopen
 #undef errf
 #undef umask
@@ -234,11 +251,15 @@ static void put_errtail(const dyn_t *e)
 
 /* ---- children ----------------------------------------------------------------------------- */
 
+static void env_parse(const char *e);
+static int env_infd, env_on = 0;
+
 static void server_child(const char *jail, const char *cwd, char *dest, int p, int y, int um,
-                         int infd, int outfd, int errfd, long fsize)
+                         int infd, int outfd, int errfd, long fsize, const char *env)
 {
     struct pcp_server svr[1];
     dup2(errfd, 2);
+    if (env) { env_parse(env); env_infd = infd; env_on = 1; }
     if (fsize > 0) {
         /* write-fault injection: like a full disk / exceeded quota, write(2) beyond the limit is short
          * or fails with EFBIG (SIGXFSZ ignored), ftruncate(2) growing beyond it fails */
@@ -322,7 +343,7 @@ static char *tok(char **sp)
 static void op_sink(char *rest)
 {
     char *jail = tok(&rest), *cwd = tok(&rest), *desthex = tok(&rest), *ps = tok(&rest), *ys = tok(&rest),
-         *ums = tok(&rest), *fdm = tok(&rest), *fsz = tok(&rest), *shex = tok(&rest);
+         *ums = tok(&rest), *fdm = tok(&rest), *fsz = tok(&rest), *shex = tok(&rest), *env = tok(&rest);
     if (!shex) { printf("bad-op\n"); return; }
     if (ntimeouts >= MAX_TIMEOUTS) { printf("skipped rc=-1 sig=997 san=0 replies=- err=-\n"); return; }
     size_t dl, sl;
@@ -345,7 +366,7 @@ static void op_sink(char *rest)
         close(perr[0]);
         if (fdmode == 0) close(sv[0]); else { close(pin[1]); close(pout[0]); }
         server_child(jail, cwd, dest, atoi(ps), atoi(ys), (int) strtol(ums, NULL, 8), c_in, c_out, perr[1],
-                     atol(fsz));
+                     atol(fsz), env);
     }
     close(perr[1]);
     if (fdmode == 0) close(sv[1]); else { close(pin[0]); close(pout[1]); }
@@ -396,7 +417,7 @@ static void op_rt(char *rest)
     if (spid == 0) {
         close(sc[0]); close(sc[1]); close(ss[0]); close(perr[0]);
         server_child(jail, cwd, dest, atoi(ps), atoi(ys), (int) strtol(ums, NULL, 8), ss[1], ss[1], perr[1],
-                     atol(fsz));
+                     atol(fsz), NULL);
     }
     pid_t cpid = fork();
     if (cpid == 0) {
@@ -443,9 +464,74 @@ typedef struct {
 
 static __thread conn_t *self_conn = NULL;
 
+static long env_blk = -1, env_rdmax = 0, env_eintr = -1, env_short_at = -1, env_short_n = 0, env_reads = 0;
+static long env_wr_at = -1, env_writes = 0, env_open_at = -1, env_opens = 0;
+static int env_wr_kind = 0, env_fstat_fail = 0;
+static int env_infd = -1;
+
+static void env_parse(const char *e)
+{
+    /* blk=N,rdmax=M,eintr=K,short=K:M */
+    while (e && *e) {
+        if (!strncmp(e, "blk=", 4)) env_blk = atol(e + 4);
+        else if (!strncmp(e, "rdmax=", 6)) env_rdmax = atol(e + 6);
+        else if (!strncmp(e, "eintr=", 6)) env_eintr = atol(e + 6);
+        else if (!strncmp(e, "wr=", 3)) {
+            env_wr_at = atol(e + 3);
+            const char *c = strchr(e + 3, ':');
+            env_wr_kind = c ? c[1] : 'e';
+        }
+        else if (!strncmp(e, "open=", 5)) env_open_at = atol(e + 5);
+        else if (!strncmp(e, "fstat=fail", 10)) env_fstat_fail = 1;
+        else if (!strncmp(e, "short=", 6)) {
+            env_short_at = atol(e + 6);
+            const char *c = strchr(e + 6, ':');
+            env_short_n = c ? atol(c + 1) : 1;
+        }
+        e = strchr(e, ',');
+        if (e) e++;
+    }
+}
+
+static ssize_t harness_write(int fd, const void *buf, size_t n)
+{
+    if (env_on && fd != 2) {
+        long k = env_writes++;
+        if (k == env_wr_at && env_wr_kind == 'e') { errno = EINTR; return -1; }
+        if (k == env_wr_at && env_wr_kind == 's' && n > 1) n = n / 2;
+    }
+    return write(fd, buf, n);
+}
+
+#include <stdarg.h>
+static int harness_open(const char *path, int flags, ...)
+{
+    va_list ap;
+    va_start(ap, flags);
+    int mode = (flags & O_CREAT) ? va_arg(ap, int) : 0;
+    va_end(ap);
+    if (env_on && env_opens++ == env_open_at) { errno = EMFILE; return -1; }
+    return open(path, flags, mode);
+}
+
+static int harness_fstat(int fd, struct stat *sb)
+{
+    if (env_fstat_fail) { errno = EIO; return -1; }
+    int r = fstat(fd, sb);
+    if (r == 0 && env_blk >= 0)
+        sb->st_blksize = env_blk;
+    return r;
+}
+
 static ssize_t harness_read(int fd, void *buf, size_t n)
 {
     conn_t *c = self_conn;
+    if (fd == env_infd) {
+        long k = env_reads++;
+        if (k == env_eintr) { errno = EINTR; return -1; }
+        if (k == env_short_at && env_short_n > 0 && n > (size_t) env_short_n) n = (size_t) env_short_n;
+        if (env_rdmax > 0 && n > (size_t) env_rdmax) n = (size_t) env_rdmax;
+    }
     if (c && fd == c->svr.infd) {
         struct pollfd pf = { fd, POLLIN, 0 };
         __atomic_store_n(&c->idle, 1, __ATOMIC_SEQ_CST);
